@@ -66,3 +66,63 @@ def explore(ctx, kind, nthreads, per_thread, judge, quick):
                 shutil.rmtree(holder['dir'], ignore_errors=True)
     S.explore_dfs(make, tg, 1, on_run, max_runs=120 if quick else 4000)
     S.explore_random(make, tg, 30 if quick else 1500, ctx.rng, on_run)
+
+
+def explore_resave_fetch(ctx, quick):
+    """In-memory cassette shared by threads: one thread saves an already stored recording AGAIN under its id (fetched, completed, saved)
+    while another fetches that id. The id was saved before the threads started: every fetch must find it, with the old or the new
+    content. (The file cassette rewrites its file in place and is not driven this way.)"""
+    import playback.tape_cassette as base
+    import playback.tape_cassettes.in_memory.in_memory_tape_cassette as mod
+    from playback.exceptions import NoSuchRecording
+    tg = [mod.__file__, base.__file__]
+    holder = {}
+
+    def make(sched):
+        c = mod.InMemoryTapeCassette()
+        first = c.create_new_recording('Op')
+        first.set_data('k', 'v1')
+        first.add_metadata({'rev': 1})
+        c.save_recording(first)
+        other = c.create_new_recording('Op')
+        c.save_recording(other)
+        rid = first.id
+        seen = []
+        holder.update(seen=seen)
+
+        def resaver():
+            r = c.get_recording(rid)
+            r.add_metadata({'rev': 2})
+            c.save_recording(r)
+
+        def fetcher():
+            for _ in range(2):
+                try:
+                    seen.append(('data', c.get_recording(rid).get_metadata().get('rev')))
+                    seen.append(('meta', c.get_recording_metadata(rid).get('rev')))
+                except NoSuchRecording:
+                    seen.append(('missing', None))
+
+        def main():
+            ths = [sched.Thread(target=resaver, name='resaver'), sched.Thread(target=fetcher, name='fetcher')]
+            for t in ths:
+                t.start()
+            for t in ths:
+                t.join()
+        return main
+
+    def on_run(rec, desc):
+        w = {'concurrent_saves': 'memory', 'resave_while_fetching': True, 'schedule': desc if isinstance(desc, tuple) else list(desc)}
+        ctx.case(('resave_fetch', rec.trace), nontrivial=len(rec.points) > 0)
+        ctx.count('resave_while_fetching_schedules')
+        if rec.aborted or rec.error is not None:
+            if rec.error is not None:
+                ctx.violation('re-saving a stored recording while another thread fetches it raised %s' % type(rec.error).__name__, dict(w, error=repr(rec.error)[:200]))
+            return
+        for what, rev in holder['seen']:
+            if what == 'missing' or rev not in (1, 2):
+                ctx.violation('a stored recording was not fetchable (or held neither its old nor its new content) while another thread saved it again under its id',
+                              dict(w, seen=holder['seen']))
+                return
+    S.explore_dfs(make, tg, 1, on_run, max_runs=150 if quick else 4000)
+    S.explore_random(make, tg, 40 if quick else 1500, ctx.rng, on_run)
